@@ -38,6 +38,7 @@ package schema
 //@   assigns nothing
 //@ interface Type.ValidateCompatibility(this, typeOrData) -> err
 //@   names (err == nil) == compatOK(this, typeOrData)
+//@   assigns nothing
 //@ interface Object.ID(this) -> res
 //@   names res == objID(this)
 //@   assigns nothing
@@ -119,7 +120,7 @@ package schema
 
 //@ spec isCE(err error) bool = typeOf(err) == type(*ConstraintError)
 //@ spec inBoundsI(min *int64, max *int64, v int64) bool = (min == nil || v >= *min) && (max == nil || v <= *max)
-//@ spec inBoundsF(min *float64, max *float64, v float64) bool = (min == nil || !(v < *min)) && (max == nil || !(v > *max))
+//@ spec inBoundsF(min *float64, max *float64, v float64) bool = (min == nil || v >= *min) && (max == nil || v <= *max)
 //@ spec numericKind(k int) bool = (k >= KindInt && k <= KindUintptr) || k == KindFloat32 || k == KindFloat64
 //@ spec asIntOK(d any) bool = d != nil && numericKind(kindOf(d))
 //@ spec asFloatOK(d any) bool = d != nil && numericKind(kindOf(d))
@@ -150,3 +151,211 @@ package schema
 //@   ensures (err == nil) == inBoundsI(i.MinValue, i.MaxValue, data)
 //@   ensures res == any(data)
 //@   assigns nothing
+
+//@ func asFloat(d) -> res, err
+//@   ensures (err == nil) == asFloatOK(d)
+//@   ensures typeOf(d) == type(float64) ==> same(res, d.(float64))
+//@   ensures err != nil ==> isCE(err) && fresh(err)
+//@   assigns nothing
+
+//@ func FloatSchema.Serialize(f, d) -> res, err
+//@   ensures (err == nil) == (asFloatOK(d) && inBoundsF(f.MinValue, f.MaxValue, res.(float64)))
+//@   ensures typeOf(res) == type(float64)
+//@   ensures typeOf(d) == type(float64) ==> res == d
+//@   ensures err != nil ==> isCE(err) && fresh(err)
+//@   assigns nothing
+
+//@ func FloatSchema.Validate(f, d) -> err
+//@   ensures typeOf(d) == type(float64) ==> ((err == nil) == inBoundsF(f.MinValue, f.MaxValue, d.(float64)))
+//@   ensures !asFloatOK(d) ==> err != nil
+//@   assigns nothing
+
+//@ func FloatSchema.ValidateType(f, data) -> err
+//@   ensures (err == nil) == inBoundsF(f.MinValue, f.MaxValue, data)
+//@   assigns nothing
+
+//@ func FloatSchema.SerializeType(f, data) -> res, err
+//@   ensures (err == nil) == inBoundsF(f.MinValue, f.MaxValue, data)
+//@   ensures res == any(data)
+//@   assigns nothing
+
+//@ spec strOK(s StringSchema, v string) bool = (s.MinValue == nil || int64(len(v)) >= *s.MinValue) && (s.MaxValue == nil || int64(len(v)) <= *s.MaxValue) && (s.PatternValue == nil || re_match(s.PatternValue, v))
+//@ spec asStringOK(d any) bool = d != nil && (kindOf(d) == KindString || (kindOf(d) >= KindInt && kindOf(d) <= KindUintptr) || (kindOf(d) == KindSlice && (kind(elemT(typeOf(d))) == KindUint8 || kind(elemT(typeOf(d))) == KindInt32)))
+
+//@ func asString(d) -> res, err
+//@   ensures (err == nil) == asStringOK(d)
+//@   ensures typeOf(d) == type(string) ==> res == d.(string)
+//@   ensures err != nil ==> isCE(err) && fresh(err)
+//@   assigns nothing
+
+//@ func StringSchema.ValidateType(s, data) -> err
+//@   ensures (err == nil) == strOK(s, data)
+//@   ensures err != nil ==> isCE(err) && fresh(err)
+//@   assigns nothing
+
+//@ func StringSchema.Serialize(s, d) -> res, err
+//@   ensures (err == nil) == (asStringOK(d) && strOK(s, res.(string)))
+//@   ensures typeOf(res) == type(string)
+//@   ensures typeOf(d) == type(string) ==> res == d
+//@   ensures err != nil ==> isCE(err) && fresh(err)
+//@   assigns nothing
+
+//@ func StringSchema.Validate(s, d) -> err
+//@   ensures typeOf(d) == type(string) ==> ((err == nil) == strOK(s, d.(string)))
+//@   ensures !asStringOK(d) ==> err != nil
+//@   assigns nothing
+
+//@ func StringSchema.SerializeType(s, data) -> res, err
+//@   ensures (err == nil) == strOK(s, data)
+//@   ensures res == any(data)
+//@   assigns nothing
+
+// representation mappers: every Go representation a decoder can hand over
+//@ func intInputMapper(data, u) -> res, err
+//@   ensures typeOf(data) == type(int64) ==> err == nil && res == data.(int64)
+//@   ensures typeOf(data) == type(int) ==> err == nil && res == int64(data.(int))
+//@   ensures typeOf(data) == type(int32) ==> err == nil && res == int64(data.(int32))
+//@   ensures typeOf(data) == type(int16) ==> err == nil && res == int64(data.(int16))
+//@   ensures typeOf(data) == type(int8) ==> err == nil && res == int64(data.(int8))
+//@   ensures typeOf(data) == type(uint32) ==> err == nil && res == int64(data.(uint32))
+//@   ensures typeOf(data) == type(uint16) ==> err == nil && res == int64(data.(uint16))
+//@   ensures typeOf(data) == type(uint8) ==> err == nil && res == int64(data.(uint8))
+//@   ensures typeOf(data) == type(uint64) ==> ((err == nil) == (data.(uint64) <= 9223372036854775807)) && (err == nil ==> res == data.(uint64))
+//@   ensures typeOf(data) == type(uint) ==> ((err == nil) == (data.(uint) <= 9223372036854775807)) && (err == nil ==> res == data.(uint))
+//@   ensures typeOf(data) == type(bool) ==> err == nil && res == (data.(bool) ? 1 : 0)
+//@   ensures typeOf(data) == type(float64) ==> ((err == nil) == (float64(int64(data.(float64))) == data.(float64))) && (err == nil ==> res == int64(data.(float64)))
+//@   ensures typeOf(data) == type(float32) ==> ((err == nil) == (float32(int64(data.(float32))) == data.(float32))) && (err == nil ==> res == int64(data.(float32)))
+//@   ensures typeOf(data) == type(string) && u == nil ==> ((err == nil) == parseint_ok(data.(string))) && (err == nil ==> res == parseint_val(data.(string)))
+//@   ensures typeOf(data) != type(int64) && typeOf(data) != type(int) && typeOf(data) != type(int32) && typeOf(data) != type(int16) && typeOf(data) != type(int8) && typeOf(data) != type(uint64) && typeOf(data) != type(uint) && typeOf(data) != type(uint32) && typeOf(data) != type(uint16) && typeOf(data) != type(uint8) && typeOf(data) != type(float64) && typeOf(data) != type(float32) && typeOf(data) != type(bool) && typeOf(data) != type(string) ==> err != nil
+//@   assigns nothing
+
+//@ func IntSchema.Unserialize(i, data) -> res, err
+//@   ensures typeOf(data) == type(int64) ==> ((err == nil) == inBoundsI(i.MinValue, i.MaxValue, data.(int64))) && (err == nil ==> res == data)
+//@   ensures err == nil ==> typeOf(res) == type(int64) && inBoundsI(i.MinValue, i.MaxValue, res.(int64))
+//@   ensures typeOf(data) == type(uint64) && data.(uint64) > 9223372036854775807 ==> err != nil
+//@   assigns nothing
+
+//@ func IntSchema.UnserializeType(i, data) -> res, err
+//@   ensures typeOf(data) == type(int64) ==> ((err == nil) == inBoundsI(i.MinValue, i.MaxValue, data.(int64))) && (err == nil ==> res == data.(int64))
+//@   ensures err == nil ==> inBoundsI(i.MinValue, i.MaxValue, res)
+//@   assigns nothing
+
+//@ func floatInputMapper(data, u) -> res, err
+//@   ensures typeOf(data) == type(float64) ==> err == nil && same(res, data.(float64))
+//@   ensures typeOf(data) == type(float32) ==> err == nil && same(res, float64(data.(float32)))
+//@   ensures typeOf(data) == type(int64) ==> err == nil && same(res, float64(data.(int64)))
+//@   ensures typeOf(data) == type(uint64) ==> err == nil && same(res, float64(data.(uint64)))
+//@   ensures typeOf(data) == type(int) ==> err == nil && same(res, float64(data.(int)))
+//@   ensures typeOf(data) == type(uint) ==> err == nil && same(res, float64(data.(uint)))
+//@   ensures typeOf(data) == type(int32) ==> err == nil && same(res, float64(data.(int32)))
+//@   ensures typeOf(data) == type(uint32) ==> err == nil && same(res, float64(data.(uint32)))
+//@   ensures typeOf(data) == type(int16) ==> err == nil && same(res, float64(data.(int16)))
+//@   ensures typeOf(data) == type(uint16) ==> err == nil && same(res, float64(data.(uint16)))
+//@   ensures typeOf(data) == type(int8) ==> err == nil && same(res, float64(data.(int8)))
+//@   ensures typeOf(data) == type(uint8) ==> err == nil && same(res, float64(data.(uint8)))
+//@   ensures typeOf(data) == type(bool) ==> err == nil && same(res, data.(bool) ? 1.0 : 0.0)
+//@   ensures typeOf(data) == type(string) && u == nil ==> ((err == nil) == parsefloat_ok(data.(string))) && (err == nil ==> same(res, parsefloat_val(data.(string))))
+//@   ensures typeOf(data) != type(int64) && typeOf(data) != type(int) && typeOf(data) != type(int32) && typeOf(data) != type(int16) && typeOf(data) != type(int8) && typeOf(data) != type(uint64) && typeOf(data) != type(uint) && typeOf(data) != type(uint32) && typeOf(data) != type(uint16) && typeOf(data) != type(uint8) && typeOf(data) != type(float64) && typeOf(data) != type(float32) && typeOf(data) != type(bool) && typeOf(data) != type(string) ==> err != nil
+//@   assigns nothing
+
+//@ func FloatSchema.Unserialize(f, data) -> res, err
+//@   ensures typeOf(data) == type(float64) ==> ((err == nil) == inBoundsF(f.MinValue, f.MaxValue, data.(float64))) && (err == nil ==> res == data)
+//@   ensures err == nil ==> typeOf(res) == type(float64) && inBoundsF(f.MinValue, f.MaxValue, res.(float64))
+//@   assigns nothing
+
+//@ func FloatSchema.UnserializeType(f, data) -> res, err
+//@   ensures typeOf(data) == type(float64) ==> ((err == nil) == inBoundsF(f.MinValue, f.MaxValue, data.(float64))) && (err == nil ==> same(res, data.(float64)))
+//@   ensures err == nil ==> inBoundsF(f.MinValue, f.MaxValue, res)
+//@   assigns nothing
+
+//@ func stringInputMapper(data) -> res, err
+//@   ensures typeOf(data) == type(string) ==> err == nil && res == data.(string)
+//@   ensures typeOf(data) != type(string) && typeOf(data) != type(int64) && typeOf(data) != type(int) && typeOf(data) != type(int32) && typeOf(data) != type(int16) && typeOf(data) != type(int8) && typeOf(data) != type(uint64) && typeOf(data) != type(uint) && typeOf(data) != type(uint32) && typeOf(data) != type(uint16) && typeOf(data) != type(uint8) && typeOf(data) != type(float64) && typeOf(data) != type(float32) ==> err != nil
+//@   ensures typeOf(data) == type(int64) || typeOf(data) == type(int) || typeOf(data) == type(int32) || typeOf(data) == type(int16) || typeOf(data) == type(int8) || typeOf(data) == type(uint64) || typeOf(data) == type(uint) || typeOf(data) == type(uint32) || typeOf(data) == type(uint16) || typeOf(data) == type(uint8) || typeOf(data) == type(float64) || typeOf(data) == type(float32) ==> err == nil
+//@   assigns nothing
+
+//@ func StringSchema.UnserializeType(s, data) -> res, err
+//@   ensures typeOf(data) == type(string) ==> ((err == nil) == strOK(s, data.(string))) && (err == nil ==> res == data.(string))
+//@   ensures err == nil ==> strOK(s, res)
+//@   assigns nothing
+
+//@ func StringSchema.Unserialize(s, data) -> res, err
+//@   ensures typeOf(data) == type(string) ==> ((err == nil) == strOK(s, data.(string))) && (err == nil ==> res == data)
+//@   ensures err == nil ==> typeOf(res) == type(string) && strOK(s, res.(string))
+//@   assigns nothing
+
+//@ spec bool01(v int64) bool = v == 0 || v == 1
+//@ func BoolSchema.Unserialize(b, data) -> res, err
+//@   ensures typeOf(data) == type(bool) ==> err == nil && res == data
+//@   ensures typeOf(data) == type(string) ==> ((err == nil) == (str_tolower(data.(string)) in boolStringValues)) && (err == nil ==> res == any(boolStringValues[str_tolower(data.(string))]))
+//@   ensures typeOf(data) == type(int64) ==> ((err == nil) == bool01(data.(int64))) && (err == nil ==> res == any(data.(int64) == 1))
+//@   ensures typeOf(data) == type(int) ==> ((err == nil) == bool01(int64(data.(int)))) && (err == nil ==> res == any(data.(int) == 1))
+//@   ensures typeOf(data) == type(uint64) ==> ((err == nil) == bool01(int64(data.(uint64)))) && (err == nil ==> res == any(data.(uint64) == 1))
+//@   ensures typeOf(data) == type(uint8) ==> ((err == nil) == bool01(int64(data.(uint8)))) && (err == nil ==> res == any(data.(uint8) == 1))
+//@   ensures typeOf(data) == type(int32) ==> ((err == nil) == bool01(int64(data.(int32)))) && (err == nil ==> res == any(data.(int32) == 1))
+//@   ensures err == nil ==> typeOf(res) == type(bool)
+//@   ensures typeOf(data) == type(float64) || typeOf(data) == type(float32) || data == nil ==> err != nil
+//@   assigns nothing
+
+//@ func asBool(d) -> res, err
+//@   ensures (err == nil) == (d != nil && kindOf(d) == KindBool)
+//@   ensures typeOf(d) == type(bool) ==> res == d.(bool)
+//@   ensures err != nil ==> isCE(err) && fresh(err)
+//@   assigns nothing
+
+//@ func BoolSchema.Serialize(b, d) -> res, err
+//@   ensures (err == nil) == (d != nil && kindOf(d) == KindBool)
+//@   ensures typeOf(res) == type(bool)
+//@   ensures typeOf(d) == type(bool) ==> res == d
+//@   assigns nothing
+
+//@ func EnumSchema.ValidateType(e, data) -> err
+//@   ensures (err == nil) == (data in e.ValidValuesMap)
+//@   ensures err != nil ==> isCE(err) && fresh(err)
+//@   loop 1 invariant !(data in visited)
+
+// containers: size bounds and, recursively, the item / key / value schemas
+//@ interface Type.Validate(this, data) -> err
+//@   names (err == nil) == validOK(this, data)
+//@   assigns nothing
+//@ interface Type.Unserialize(this, data) -> res, err
+//@   names (err == nil) == unserOK(this, data)
+//@   names err == nil ==> res == unserV(this, data)
+//@   assigns nothing
+//@ interface Type.Serialize(this, data) -> res, err
+//@   names (err == nil) == serOK(this, data)
+//@   names err == nil ==> res == serV(this, data)
+//@   assigns nothing
+
+//@ spec sizeOK(min *int64, max *int64, n int) bool = (min == nil || *min <= int64(n)) && (max == nil || *max >= int64(n))
+//@ spec listItem(data any, j int) any = rv_iface(rv_index(rv_of(data), j))
+//@ spec listLen(data any) int = rv_len(rv_of(data))
+
+//@ func AbstractListSchema.Validate(l, data) -> err
+//@   ensures (err == nil) == (kindOf(data) == KindSlice && sizeOK(l.MinValue, l.MaxValue, listLen(data)) && (forall j int :: 0 <= j && j < listLen(data) ==> validOK(l.ItemsValue, listItem(data, j))))
+//@   loop 1 invariant 0 <= i && forall j int :: 0 <= j && j < i ==> validOK(l.ItemsValue, listItem(data, j))
+
+//@ func AbstractListSchema.Unserialize(l, data) -> res, err
+//@   ensures (err == nil) == (kindOf(data) == KindSlice && sizeOK(l.MinValue, l.MaxValue, listLen(data)) && (forall j int :: 0 <= j && j < listLen(data) ==> unserOK(l.ItemsValue, listItem(data, j))))
+//@   loop 1 invariant 0 <= i && forall j int :: 0 <= j && j < i ==> unserOK(l.ItemsValue, listItem(data, j))
+
+//@ func AbstractListSchema.Serialize(l, data) -> res, err
+//@   ensures err == nil ==> kindOf(data) == KindSlice && sizeOK(l.MinValue, l.MaxValue, listLen(data)) && (forall j int :: 0 <= j && j < listLen(data) ==> validOK(l.ItemsValue, listItem(data, j)) && serOK(l.ItemsValue, listItem(data, j)))
+//@   ensures err == nil ==> typeOf(res) == type([]any) && len(res.([]any)) == listLen(data) && (forall j int :: 0 <= j && j < listLen(data) ==> res.([]any)[j] == serV(l.ItemsValue, listItem(data, j)))
+//@   loop 1 invariant 0 <= i && len(result) == listLen(data) && (forall j int :: 0 <= j && j < i ==> serOK(l.ItemsValue, listItem(data, j)) && result[j] == serV(l.ItemsValue, listItem(data, j)))
+
+//@ spec mapKey(data any, j int) any = rv_iface(rv_key(rv_of(data), j))
+//@ spec mapVal(data any, j int) any = rv_iface(rv_mapindex(rv_of(data), rv_key(rv_of(data), j)))
+
+//@ func MapSchema.Validate(m, data) -> err
+//@   ensures (err == nil) == (kindOf(data) == KindMap && sizeOK(m.MinValue, m.MaxValue, listLen(data)) && (forall j int :: 0 <= j && j < listLen(data) ==> validOK(m.KeysValue, mapKey(data, j)) && validOK(m.ValuesValue, mapVal(data, j))))
+//@   loop 1 invariant forall j int :: 0 <= j && j <= idx ==> validOK(m.KeysValue, mapKey(data, j)) && validOK(m.ValuesValue, mapVal(data, j))
+
+//@ func MapSchema.Unserialize(m, data) -> res, err
+//@   ensures (err == nil) == (kindOf(data) == KindMap && sizeOK(m.MinValue, m.MaxValue, listLen(data)) && (forall j int :: 0 <= j && j < listLen(data) ==> unserOK(m.KeysValue, mapKey(data, j)) && unserOK(m.ValuesValue, mapVal(data, j))))
+//@   loop 1 invariant forall j int :: 0 <= j && j <= idx ==> unserOK(m.KeysValue, mapKey(data, j)) && unserOK(m.ValuesValue, mapVal(data, j))
+
+//@ func MapSchema.Serialize(m, data) -> res, err
+//@   ensures err == nil ==> kindOf(data) == KindMap && sizeOK(m.MinValue, m.MaxValue, listLen(data)) && (forall j int :: 0 <= j && j < listLen(data) ==> validOK(m.KeysValue, mapKey(data, j)) && validOK(m.ValuesValue, mapVal(data, j)) && serOK(m.KeysValue, mapKey(data, j)) && serOK(m.ValuesValue, mapVal(data, j)))
+//@   ensures err == nil ==> typeOf(res) == type(map[any]any) && (forall j int :: 0 <= j && j < listLen(data) ==> serV(m.KeysValue, mapKey(data, j)) in res.(map[any]any))
+//@   loop 1 invariant forall j int :: 0 <= j && j <= idx ==> serOK(m.KeysValue, mapKey(data, j)) && serOK(m.ValuesValue, mapVal(data, j)) && serV(m.KeysValue, mapKey(data, j)) in result
